@@ -15,4 +15,10 @@ PROPS = {
         bounded=["bounded.c11_bfs"],
         trusted=["induction over the length of a walk (lemma hexd_lipschitz gives the step), stated in DESIGN.md 8/C11"],
     ),
+    "C19": dict(
+        level="proof",
+        specs=["specs.c19_spinn5"],
+        bounded=["bounded.c19_tiles"],
+        trusted=["specs/c19_spinn5.py tile model: 48-chip hexagon 0<=x,y<=7, x-y<=4, y-x<=3; Ethernet chips at (0,0),(4,8),(8,4) mod 12 (transcribed from the SpiNN-5 documentation, independent of the code's table)"],
+    ),
 }
